@@ -73,6 +73,27 @@ Theorem C05_dash_config_wins : forall q c fy fj fp pos suf dd,
 Proof. exact dash_wins. Qed.
 Print Assumptions C05_dash_config_wins.
 
+(* an explicit configuration file that is present but says nothing about the unit (empty, comment-only, `{}`, unrelated
+   sections only) means all defaults - it does NOT fall back to the project's own configuration files *)
+Theorem C05_explicit_empty_config_is_defaults : forall q c fy fj fp pos suf,
+  flags_off q -> case_good c = true -> lang_good c = true -> smem suf doc_valid_suffixes = true ->
+  spec_discovered {| p_yaml := fy; p_json := fj; p_pyproject := fp; p_dash := None; p_ignore_file := []; p_subdir := false |} <> LErr ->
+  run q (with_proj c {| p_yaml := fy; p_json := fj; p_pyproject := fp;
+                        p_dash := Some {| d_pos := pos; d_suffix := suf; d_file := Doc [] |}; p_ignore_file := []; p_subdir := false |})
+  = run q (with_proj c no_config).
+Proof. exact explicit_empty_config_is_defaults. Qed.
+Print Assumptions C05_explicit_empty_config_is_defaults.
+
+Theorem C05_explicit_unrelated_config_is_defaults : forall q c fy fj fp pos suf dd,
+  flags_off q -> case_good c = true -> lang_good c = true -> smem suf doc_valid_suffixes = true ->
+  spec_discovered {| p_yaml := fy; p_json := fj; p_pyproject := fp; p_dash := None; p_ignore_file := []; p_subdir := false |} <> LErr ->
+  section_of (c_unit c) dd = [] -> str_list (get "ignore" dd) = [] ->
+  run q (with_proj c {| p_yaml := fy; p_json := fj; p_pyproject := fp;
+                        p_dash := Some {| d_pos := pos; d_suffix := suf; d_file := Doc dd |}; p_ignore_file := []; p_subdir := false |})
+  = run q (with_proj c no_config).
+Proof. exact explicit_unrelated_config_is_defaults. Qed.
+Print Assumptions C05_explicit_unrelated_config_is_defaults.
+
 Theorem C05_cli_option_wins : forall q u lopts lang opt ovs cfg z,
   flags_off q -> In u units -> In lang all_languages -> ~ In opt all_languages ->
   spec_cli (cmd_of u) ovs opt = Some z ->
